@@ -3388,9 +3388,17 @@ pub fn initialize(env: &mut Env) {
         "≥",
     );
     env.insert_builtin(Divide);
-    env.insert_builtin(TwoNumsToNumsBuiltin {
+    env.insert_builtin(TwoNumsBuiltin {
         name: "%".to_string(),
-        body: |a, b| a % b,
+        body: |a, b| match (&a, &b) {
+            // exact remainder by an exact zero has no value (floats give NaN as usual)
+            (NNum::Int(_) | NNum::Rational(_), NNum::Int(_) | NNum::Rational(_))
+                if !b.is_nonzero() =>
+            {
+                Err(NErr::value_error("division by zero".to_string()))
+            }
+            _ => Ok(Obj::Num(a % b)),
+        },
     });
     env.insert_builtin(TwoNumsBuiltin {
         name: "//".to_string(),
